@@ -138,33 +138,45 @@ def _mc(args, byte_lists):
     return p
 
 
-def disassemble(args, byte_lists, _depth=0):
-    """llvm-mc --disassemble, one atomic [..] block per byte string: [text | None (invalid) | False (the
-    disassembler crashed on it)].  LLVM 14's AVR disassembler crashes on some encodings: a crashing batch is
-    bisected so that only the culprits are lost."""
+def disassemble(args, byte_lists, sentinel, _depth=0):
+    """llvm-mc --disassemble, one atomic [..] block per byte string, each followed by a sentinel instruction
+    (bytes, printed text) so that the output can be cut per input string: [text | None (invalid encoding) | False
+    (read as no / several instructions, equal to the sentinel, or the disassembler crashed on it)].
+    LLVM 14's AVR disassembler crashes on some encodings: a crashing batch is bisected."""
     import re
     if not byte_lists:
         return []
-    def split():
-        if len(byte_lists) == 1:
-            return [False]
-        if _depth > 16:
+    sb, stext = sentinel
+    inp = []
+    for b in byte_lists:
+        inp.append(list(b))
+        inp.append(list(sb))
+    p = _mc(args, inp)
+    if p.returncode not in (0, 1):  # killed by a signal: the disassembler crashed
+        if len(byte_lists) == 1 or _depth > 16:
             return [False] * len(byte_lists)
         h = len(byte_lists) // 2
-        return disassemble(args, byte_lists[:h], _depth + 1) + disassemble(args, byte_lists[h:], _depth + 1)
-
-    p = _mc(args, byte_lists)
-    if p.returncode not in (0, 1):  # killed by a signal: the disassembler crashed
-        return split()
+        return disassemble(args, byte_lists[:h], sentinel, _depth + 1) + disassemble(args, byte_lists[h:], sentinel, _depth + 1)
     bad = {int(m.group(1)) for m in re.finditer(r"<stdin>:(\d+):\d+: warning: invalid instruction encoding", p.stderr)}
-    lines = [ln.strip() for ln in p.stdout.splitlines() if ln.strip() and not ln.strip().startswith(".text")]
-    if len(lines) + len(bad) != len(byte_lists):
-        return split()  # a byte string was read as more than one instruction: isolate it
-    res, k = [], 0
-    for n in range(1, len(byte_lists) + 1):
-        if n in bad:
+    lines = [" ".join(ln.replace("\t", " ").split()) for ln in p.stdout.splitlines() if ln.strip() and not ln.strip().startswith(".text")]
+    groups, cur = [], []
+    for ln in lines:
+        if ln == stext:
+            groups.append(cur)
+            cur = []
+        else:
+            cur.append(ln)
+    if len(groups) != len(byte_lists) or cur:
+        return [False] * len(byte_lists)
+    res = []
+    for k, (b, g) in enumerate(zip(byte_lists, groups)):
+        line_no = 2 * k + 1
+        if list(b) == list(sb):
+            res.append(False)
+        elif len(g) == 1 and line_no not in bad:
+            res.append(g[0])
+        elif not g and line_no in bad:
             res.append(None)
-            continue
-        res.append(" ".join(lines[k].replace("\t", " ").split()))
-        k += 1
+        else:
+            res.append(False)
     return res
